@@ -18,7 +18,8 @@ Section C13.
   (* every exception the model can produce, for EVERY input string, either setting of check_syntax and every oracle:
      the parser's three own errors; or ValueError from `equation.split('=')`, and then only for a statement
      that has no '=' and was accepted through the fenced-block alternative of equation_re (finding, see
-     C13_own_errors_refuted); or the oracle's own foreign exception *)
+     C13_own_errors_refuted); or the oracle's own foreign exception — since fix 74fa5fb that means an exception of compile()
+     OUTSIDE SyntaxError / ValueError / RecursionError / MemoryError / OverflowError (those are ChkSyntaxError / ChkCaughtExn) *)
   Theorem C13_every_exception_classified cs s e :
     parse_model_M chk cs s = PErr e ->
     (e = ParserError \/ e = SymbolError \/ e = IndentationError) \/
@@ -51,6 +52,27 @@ Section C13.
   Theorem C13_other_exn_only_from_oracle cs s :
     parse_model_M chk cs s = PErr OtherError -> cs = true /\ exists c, chk c = ChkOtherExn.
   Proof. exact (other_exn_only_from_oracle chk cs s). Qed.
+
+  (* fix 74fa5fb: compile() failing with ValueError, RecursionError, MemoryError or OverflowError (oracle outcome ChkCaughtExn)
+     is caught like SyntaxError.  For every script whose statements all parse and whose codes the oracle accepts or fails
+     to compile in one of the caught ways (or with one SyntaxWarning), one such failure anywhere is a ParserError … *)
+  Theorem C13_compile_failure_is_parser_error s st syms :
+    snd (split_M s) = None ->
+    (forall x, In x (fst (split_M s)) -> passes chk x) ->
+    In st (fst (split_M s)) -> parse_equation_M st = POk syms -> check_codes chk (codes_of syms) = VProblem ->
+    parse_model_M chk true s = PErr ParserError.
+  Proof. exact (compile_failure_is_parser_error chk s st syms). Qed.
+  (* … each of SyntaxError / the four caught classes / SyntaxWarning on the first non-ok code is a problem statement … *)
+  Theorem C13_check_codes_problem before c after :
+    (forall x, In x before -> chk x = ChkOk) ->
+    match chk c with ChkSyntaxError | ChkCaughtExn | ChkSyntaxWarning => true | _ => false end = true ->
+    check_codes chk (before ++ c :: after)%list = VProblem.
+  Proof. exact (check_codes_problem chk before c after). Qed.
+  (* … and an oracle that only ever answers ok or one of those failures never makes parse_model raise a foreign exception *)
+  Theorem C13_caught_failures_never_foreign cs s e :
+    (forall c, chk c = ChkOk \/ match chk c with ChkSyntaxError | ChkCaughtExn | ChkSyntaxWarning => true | _ => false end = true) ->
+    parse_model_M chk cs s = PErr e -> e <> OtherError.
+  Proof. exact (caught_failures_never_foreign chk cs s e). Qed.
 
   (* with check_syntax=False nothing is compiled at all *)
   Theorem C13_nocheck_ignores_oracle chk' s : parse_model_M chk false s = parse_model_M chk' false s.
@@ -153,6 +175,9 @@ Print Assumptions C13_own_errors_only.
 Print Assumptions C13_chk_outcomes_propagate.
 Print Assumptions C13_other_exn_only_from_oracle.
 Print Assumptions C13_nocheck_ignores_oracle.
+Print Assumptions C13_compile_failure_is_parser_error.
+Print Assumptions C13_check_codes_problem.
+Print Assumptions C13_caught_failures_never_foreign.
 Print Assumptions C13_accepted_means_every_code_compiled.
 
 Print Assumptions C13_no_statement_discarded.
